@@ -32,7 +32,7 @@ def geometry(dim: int, tier: str, width: int, n_min: int, n_max: int):
     """strategy for (shape, x_range)."""
     # domain sizes over six decades (micro-scale to kilometre-scale set-ups): absolute tolerances hidden in the code show up there
     free = st.tuples(gen.grid_shape(dim, n_min, n_max, long_axis=(70 if dim == 2 else 36) if tier == "quick" else (140 if dim == 2 else 70)), st.one_of(gen.nice_or_log(0.1, 10.0, nice=(1.0,)), gen.nice_or_log(0.1, 10.0, nice=(1.0,)),
-                                                                  gen.log_uniform(1e-3, 1e3))).map(list)
+                                                                  gen.log_uniform(1e-3, 1e3), gen.log_uniform(1e-9, 1e-5))).map(list)
     pal = [[list(s), xr] for s, xr in PALETTE[dim] if min(s) >= n_min and max(s) <= max(n_max, n_min)]
     if width == 0 or not pal:
         return free
